@@ -140,11 +140,12 @@ class Unit:
                     f = arg.split()[0]
                     self.parts.append(('const', ln, f, arg.split()[1:]))
                     continue
-                if kw == 'extract':
+                if kw in ('extract', 'extract?'):
                     if cur is not None:
                         raise Maintenance('%s:%d: nested //@extract' % (self.path, ln))
                     f, p = arg.split(' :: ', 1)
                     cur = Block(f.strip(), p.strip(), ln)
+                    cur.optional = kw == 'extract?'
                     curdir = None
                     continue
                 if cur is None:
@@ -318,7 +319,16 @@ class Unit:
 
     def _emit_block(self, blk, out, info, mutant_name):
         toks = repo_tokens(blk.file)
-        (s, k, e) = X.locate(toks, blk.path)
+        try:
+            (s, k, e) = X.locate(toks, blk.path)
+        except Maintenance as ex:
+            # `//@extract?`: an item the repository need not have (for instance a trait method that only a repaired tree has).  Absent item =
+            # nothing to verify and nothing that could call it; the file and the enclosing impl must be there all the same
+            if getattr(blk, 'optional', False) and 'anchor lost' in str(ex) and ' :: ' in blk.path:
+                X.locate(toks, blk.path.rsplit(' :: ', 1)[0])
+                info.setdefault('skipped_optional_extracts', []).append('%s :: %s (unit line %d): not in the source' % (blk.file, blk.path, blk.line))
+                return
+            raise
         item = [t.copy() for t in toks[s:e]]
         src_sha = X.sha_of(item)
         src_lines = '%d-%d' % (toks[k].line, toks[e - 1].line)
